@@ -20,8 +20,22 @@ def mine(clause: str) -> bool:
     return "-raised-" in clause or ("-error-" in clause and not clause.endswith(("-position", "-context")))
 
 
+SLOW = 2.5     # seconds; the renders of these focuses take milliseconds
+HANG = 40      # seconds after which the watchdog of gen.replay_file gives a record up
+
+
 def judge(rec, opts):
+    import time
+    if rec.get("focus") == "confused":
+        # a loop iteration limit is configured: what a huge range or array costs is bounded by it, not by its length
+        rec = dict(rec, cfg=dict(rec["cfg"], limits={"loop": 10000}))
+    t0 = time.perf_counter()
     got, _ = replay.render_record(rec)
+    dt = time.perf_counter() - t0
+    if dt > SLOW:
+        # "returns in time bounded by the size of the input and the configured limits": a few symbols, a number
+        from .c01 import constructs
+        return [(f"slow-render:{constructs(rec)}", {"seconds": round(dt, 1), "got": got})]
     if got.get("nonliquid"):
         return [(f"render-raised-{got['err']}@{got.get('site')}", {"got": got})]
     if not got["ok"] and got.get("probe"):
@@ -72,6 +86,43 @@ def _judge_msg(rec, opts):
     return judge_msg(rec, _MOPTS)
 
 
+# enumerated source text inside wrappers that reach particular parsers, rendered with hostile data
+DIGITS = "9" * 5000
+SRC_DATA = {"x": {"y": [1, 2], "a b": "xAB"}, "y": [3, 4], "a": [1, 2, 3], "b": True, "k": "a", "true": "T!", "a b": "AB!", "": "E!", "%": "P!",
+            ")": "R!", "(": "L!", "s": "%s", "n": 10 ** 5000}
+SRC_WRAPPERS = [("kwarg", "expr", "{{ a | where: k: ", " }}"), ("kwarg2", "expr-small", "{{ a | find: 'k', v: ", " }}"),
+                ("trvar", "expr-rt", "{% translate %}{{ [", "] }}{% endtranslate %}"), ("trvar2", "expr-rt", "{% translate x: ", " %}{{ x }}{% endtranslate %}"),
+                ("html", "html", "{{ '", "' | strip_html }}"), ("html-data", "html", "{% capture h %}", "{% endcapture %}{{ h | strip_html }}"),
+                ("big", "expr-big", "{{ ", " }}"), ("big-if", "expr-big", "{% if ", " %}t{% endif %}"), ("big-for", "expr-big", "{% for i in ", " limit: 2 %}{{ i }}{% endfor %}")]
+
+
+def judge_src(rec, opts):
+    import time
+    from liquid2 import DictLoader, Environment
+    from liquid2.exceptions import LiquidError
+    env = opts.get("_env")
+    if env is None:
+        env = opts["_env"] = Environment(loader=DictLoader({"p": "[{{ v }}]"}))
+    src = rec["src"].replace("@DIGITS@", DIGITS)
+    shown = rec["src"]
+    t0 = time.perf_counter()
+    try:
+        env.from_string(src).render(**SRC_DATA)
+    except LiquidError as e:
+        p = replay.error_probe(e)
+        if p:
+            return [(f"error-probe:{p}:{rec['focus']}", {"src": shown})]
+    except Exception as e:  # noqa: BLE001
+        return [(f"source-raised-{type(e).__name__}@{replay.raise_site(e)}", {"src": shown, "error": str(e)[:160]})]
+    if time.perf_counter() - t0 > SLOW:
+        return [(f"slow-render:{rec['focus']}", {"src": shown, "seconds": round(time.perf_counter() - t0, 1)})]
+    return []
+
+
+def _judge_src(rec, opts):
+    return judge_src(rec, _MOPTS)
+
+
 _MOPTS: dict = {}
 
 
@@ -111,7 +162,16 @@ def check(tier: str) -> int:
         if r is None:
             continue
         try:
-            gen.replay_file(chk, r.workdir / "out.ndjson", "harness.c02", "judge")
+            gen.replay_file(chk, r.workdir / "out.ndjson", "harness.c02", "judge", {"_hang_s": HANG})
+        finally:
+            r.cleanup()
+    for wname, alpha, pre, post in SRC_WRAPPERS:
+        n = {"html": 4, "expr": 3, "expr-big": 4}.get(alpha, 3) + (1 if tier == "thorough" and alpha != "expr" else 0)
+        r = tc.enumerate_sources(chk, f"src-{wname}", alpha, n, pre, post)
+        if r is None:
+            continue
+        try:
+            gen.replay_file(chk, r.workdir / "out.ndjson", "harness.c02", "_judge_src", {"_hang_s": HANG})
         finally:
             r.cleanup()
     from . import tlc
